@@ -46,6 +46,10 @@ pub struct Spec {
     pub requests_per_task: u32,
     pub req_seed: u64,
     pub clock_jump_permille: u32,
+    /// C20's concurrent variant: (label, cut-off epoch, issued just before live publish #i), run as a
+    /// separate task interleaved with the publish and the readers
+    #[serde(default)]
+    pub tombstones: Vec<(Vec<u8>, u64, usize)>,
 }
 
 fn gen_batches(rng: &mut Rng, universe: &[Vec<u8>], n: u64, unique: &mut u64) -> Vec<Batch> {
@@ -110,7 +114,32 @@ fn gen(rng: &mut Rng, tier: Tier) -> Spec {
         requests_per_task: rng.range(4, if tier == Tier::Thorough { 30 } else { 14 }) as u32,
         req_seed: rng.next_u64(),
         clock_jump_permille: if rng.chance(1, 4) { 3 } else { 0 },
+        tombstones: vec![],
     }
+}
+
+/// C20's concurrent variant: the same topology plus tombstoning tasks with cut-offs before the label's latest update
+pub fn gen_with_tombstones(rng: &mut Rng, tier: Tier) -> Spec {
+    let mut spec = gen(rng, tier);
+    for r in spec.readers.iter_mut() {
+        r.read_fail_permille = 0;
+    }
+    let mut m = Model::new(spec.cfg);
+    for b in &spec.prefix {
+        m.publish(b);
+    }
+    let mut ts = vec![];
+    for (i, b) in spec.live.iter().enumerate() {
+        // candidates: labels whose latest update (as of now) is at an epoch >= 2
+        let cands: Vec<(Vec<u8>, u64)> = m.users.iter().filter_map(|(l, v)| v.last().map(|x| (l.clone(), x.epoch))).filter(|(_, e)| *e >= 2).collect();
+        if !cands.is_empty() && rng.chance(2, 3) {
+            let (l, e) = cands[rng.below(cands.len() as u64) as usize].clone();
+            ts.push((l, rng.range(1, e - 1), i));
+        }
+        m.publish(b);
+    }
+    spec.tombstones = ts;
+    spec
 }
 
 #[derive(Default)]
@@ -147,6 +176,8 @@ struct Ctx {
     /// per reader: the epoch most recently signalled by its poller
     notified: Arc<Mutex<Vec<u64>>>,
     universe: Vec<Vec<u8>>,
+    /// label -> highest tombstone cut-off whose task has started
+    cuts: Arc<Mutex<BTreeMap<Vec<u8>, u64>>>,
 }
 
 fn facts(kind: &str, rs: &ReaderSpec, lag: u64) -> BTreeMap<String, Value> {
@@ -187,7 +218,16 @@ async fn one_request<TC: ModelCfg>(rd: &Rd<TC>, cx: &Ctx, rs: &ReaderSpec, ridx:
                 } else {
                     let m = cx.fin.at_epoch(eh.0);
                     match wire::send_lookup(&proof).map_err(|e| format!("{e:?}")).and_then(|p| akd::client::lookup_verify::<TC>(&cx.pk, eh.1, eh.0, AkdLabel(label.clone()), p).map_err(|e| e.to_string())) {
-                        Err(e) => sh_local.push(mk("c13_answer_not_verifying", format!("lookup of {} answered Ok at published epoch {} (storage at {:?}) but the proof does not verify: {e}", crate::histarm::short(&label), eh.0, cx.store.current_epoch()), "lookup", eh.0)),
+                        Err(e) => {
+                            // (C20's concurrent variant) a view that lags behind a tombstone cut-off serves, as "latest", a version
+                            // whose stored value is gone: neither C13 nor C20 quantifies over that combination; counted, not judged
+                            let cut = cx.cuts.lock().unwrap().get(&label).copied().unwrap_or(0);
+                            if m.latest(&label).map(|w| w.epoch <= cut).unwrap_or(false) {
+                                probes.push("lagging_lookup_of_a_tombstoned_version_(not_judged)".into());
+                            } else {
+                                sh_local.push(mk("c13_answer_not_verifying", format!("lookup of {} answered Ok at published epoch {} (storage at {:?}) but the proof does not verify: {e}", crate::histarm::short(&label), eh.0, cx.store.current_epoch()), "lookup", eh.0))
+                            }
+                        }
                         Ok(vr) => match m.latest(&label) {
                             Some(w) if w.version == vr.version && w.epoch == vr.epoch && w.value == vr.value.0 => {}
                             w => sh_local.push(mk("c13_answer_wrong_result", format!("lookup at epoch {}: got v{} e{}, model {:?}", eh.0, vr.version, vr.epoch, w.map(|w| (w.version, w.epoch))), "lookup", eh.0)),
@@ -210,15 +250,32 @@ async fn one_request<TC: ModelCfg>(rd: &Rd<TC>, cx: &Ctx, rs: &ReaderSpec, ridx:
                     sh_local.push(mk("c13_unpublished_epoch_hash", format!("history answered with ({}, {}) which the directory never published", eh.0, hex::encode(eh.1)), "history", eh.0));
                 } else {
                     let m = cx.fin.at_epoch(eh.0);
-                    match wire::send_history(&proof).map_err(|e| format!("{e:?}")).and_then(|p| {
+                    let cut = cx.cuts.lock().unwrap().get(&label).copied().unwrap_or(0);
+                    let want_full: Vec<(u64, u64, Vec<u8>)> = m.history(&label, hp).unwrap_or_default().iter().map(|v| (v.version, v.epoch, v.value.clone())).collect();
+                    // may a tombstone have replaced a (non-empty) value of this slice?
+                    let may_be_tombstoned = want_full.iter().any(|w| w.1 <= cut && !w.2.is_empty());
+                    let decoded = wire::send_history(&proof).map_err(|e| format!("{e:?}"));
+                    let strict = decoded.clone().and_then(|p| {
                         akd::client::key_history_verify::<TC>(&cx.pk, eh.1, eh.0, AkdLabel(label.clone()), p, HistoryVerificationParams::Default { history_params: to_hp(hp) }).map_err(|e| e.to_string())
-                    }) {
+                    });
+                    let judged = match (&strict, may_be_tombstoned) {
+                        (Ok(_), _) => strict.clone(),
+                        (Err(_), false) => strict.clone(),
+                        // a tombstoned entry makes the default verifier refuse; the verifier that allows missing values must then accept
+                        (Err(_), true) => decoded.and_then(|p| {
+                            akd::client::key_history_verify::<TC>(&cx.pk, eh.1, eh.0, AkdLabel(label.clone()), p, HistoryVerificationParams::AllowMissingValues { history_params: to_hp(hp) }).map_err(|e| e.to_string())
+                        }),
+                    };
+                    match judged {
                         Err(e) => sh_local.push(mk("c13_answer_not_verifying", format!("history {hp:?} of {} answered Ok at published epoch {} (storage at {:?}) but does not verify: {e}", crate::histarm::short(&label), eh.0, cx.store.current_epoch()), "history", eh.0)),
                         Ok(list) => {
                             let got: Vec<(u64, u64, Vec<u8>)> = list.iter().map(|r| (r.version, r.epoch, r.value.0.clone())).collect();
-                            let want: Vec<(u64, u64, Vec<u8>)> = m.history(&label, hp).unwrap_or_default().iter().map(|v| (v.version, v.epoch, v.value.clone())).collect();
-                            if got != want {
-                                sh_local.push(mk("c13_answer_wrong_result", format!("history {hp:?} at epoch {}: got {:?} want {:?}", eh.0, got.iter().map(|x| (x.0, x.1)).collect::<Vec<_>>(), want.iter().map(|x| (x.0, x.1)).collect::<Vec<_>>()), "history", eh.0));
+                            let same = got.len() == want_full.len() && got.iter().zip(want_full.iter()).all(|(g, w)| g.0 == w.0 && g.1 == w.1 && (g.2 == w.2 || (g.2.is_empty() && w.1 <= cut)));
+                            if !same {
+                                sh_local.push(mk("c13_answer_wrong_result", format!("history {hp:?} at epoch {}: got {:?} want {:?} (tombstone cut {cut})", eh.0, got.iter().map(|x| (x.0, x.1, x.2.len())).collect::<Vec<_>>(), want_full.iter().map(|x| (x.0, x.1, x.2.len())).collect::<Vec<_>>()), "history", eh.0));
+                            }
+                            if may_be_tombstoned {
+                                probes.push("history_answer_over_possibly_tombstoned_entries".into());
                             }
                         }
                     }
@@ -239,7 +296,14 @@ async fn one_request<TC: ModelCfg>(rd: &Rd<TC>, cx: &Ctx, rs: &ReaderSpec, ridx:
                     let m = cx.fin.at_epoch(eh.0);
                     for (l, p) in labels.iter().zip(proofs.into_iter()) {
                         match akd::client::lookup_verify::<TC>(&cx.pk, eh.1, eh.0, l.clone(), p) {
-                            Err(e) => sh_local.push(mk("c13_answer_not_verifying", format!("batch lookup entry {} at published epoch {}: {e}", crate::histarm::short(&l.0), eh.0), "batch_lookup", eh.0)),
+                            Err(e) => {
+                                let cut = cx.cuts.lock().unwrap().get(&l.0).copied().unwrap_or(0);
+                                if m.latest(&l.0).map(|w| w.epoch <= cut).unwrap_or(false) {
+                                    probes.push("lagging_lookup_of_a_tombstoned_version_(not_judged)".into());
+                                } else {
+                                    sh_local.push(mk("c13_answer_not_verifying", format!("batch lookup entry {} at published epoch {}: {e}", crate::histarm::short(&l.0), eh.0), "batch_lookup", eh.0))
+                                }
+                            }
                             Ok(vr) => match m.latest(&l.0) {
                                 Some(w) if w.version == vr.version && w.epoch == vr.epoch && w.value == vr.value.0 => {}
                                 w => sh_local.push(mk("c13_answer_wrong_result", format!("batch lookup at epoch {}: got v{} model {:?}", eh.0, vr.version, w.map(|w| w.version)), "batch_lookup", eh.0)),
@@ -333,7 +397,8 @@ async fn run_t<TC: ModelCfg>(spec: Spec) -> (Shared, Option<String>) {
         }
     }
     let notified = Arc::new(Mutex::new(vec![0u64; spec.readers.len()]));
-    let cx = Arc::new(Ctx { fin, pk, store: store.clone(), shared: shared.clone(), notified: notified.clone(), universe: spec.universe.clone() });
+    let cuts: Arc<Mutex<BTreeMap<Vec<u8>, u64>>> = Arc::new(Mutex::new(BTreeMap::new()));
+    let cx = Arc::new(Ctx { fin, pk, store: store.clone(), shared: shared.clone(), notified: notified.clone(), universe: spec.universe.clone(), cuts: cuts.clone() });
     // ---- readers ----
     let mut req_handles = vec![];
     let mut bg_handles = vec![];
@@ -404,10 +469,35 @@ async fn run_t<TC: ModelCfg>(spec: Spec) -> (Shared, Option<String>) {
     }
     // ---- writer ----
     let mut herr = None;
+    let mut tomb_handles = vec![];
     for (i, b) in spec.live.iter().enumerate() {
         let pause = spec.writer_pause_ms.get(i).copied().unwrap_or(0);
         if pause > 0 {
             tokio::time::sleep(Duration::from_millis(pause)).await;
+        }
+        for (l, cut, at) in spec.tombstones.iter() {
+            if *at == i {
+                // precondition of the statement: the cut-off lies before the label's latest update (as of now)
+                let now_epoch = (cx.fin.hashes.len() - spec.live.len() + i) as u64 - 1;
+                let latest = cx.fin.latest_at(l, now_epoch).map(|v| v.epoch).unwrap_or(0);
+                if *cut >= latest {
+                    continue;
+                }
+                {
+                    let mut g = cuts.lock().unwrap();
+                    let e = g.entry(l.clone()).or_insert(0);
+                    *e = (*e).max(*cut);
+                }
+                let (mg, l2, c2, sh2) = (wmgr.clone(), l.clone(), *cut, shared.clone());
+                tomb_handles.push(tokio::spawn(async move {
+                    let r = mg.tombstone_value_states(&AkdLabel(l2), c2).await;
+                    let mut g = sh2.lock().unwrap();
+                    g.p("tombstone_task_finished");
+                    if let Err(e) = r {
+                        g.v(Violation::new("c20_tombstone_err", format!("{e}")));
+                    }
+                }));
+            }
         }
         sched::log_event(|| format!("writer publish #{i} starts"));
         let pres = wdir.publish(to_akd_batch(b)).await;
@@ -425,6 +515,9 @@ async fn run_t<TC: ModelCfg>(spec: Spec) -> (Shared, Option<String>) {
                 break;
             }
         }
+    }
+    for h in tomb_handles {
+        let _ = h.await;
     }
     for h in req_handles {
         if let Err(e) = h.await {
@@ -465,6 +558,19 @@ async fn run_t<TC: ModelCfg>(spec: Spec) -> (Shared, Option<String>) {
     (out, herr)
 }
 
+/// run a C13-topology spec; used by C13 itself and by C20's concurrent variant
+pub fn run_spec_value(spec_v: &Value, chooser: &ChooserSpec, log: bool, class_prefix: &str) -> RunReport {
+    let mut rep = C13.run(spec_v, chooser, log);
+    if !class_prefix.is_empty() {
+        for v in rep.violations.iter_mut() {
+            if v.class.starts_with("c13_") {
+                v.class = format!("{class_prefix}{}", &v.class[4..]);
+            }
+        }
+    }
+    rep
+}
+
 pub struct C13;
 
 impl Arm for C13 {
@@ -473,7 +579,7 @@ impl Arm for C13 {
     }
     fn runs(&self, tier: Tier) -> u64 {
         match tier {
-            Tier::Quick => 1500,
+            Tier::Quick => 6000,
             Tier::Thorough => 60_000,
         }
     }
